@@ -63,8 +63,40 @@ def check_assembly(ctx, case):
     ctx.op(asm.asm_op(case), None, reply=r1)
 
 
+def check_long(ctx, case):
+    """a module kept in a 140 kb plasmid: accepted whether its recognition sites are written in upper or in lower case
+    (oracle only)"""
+    enz = asm.enzyme(case["enz"])
+    M, _ = impl.generic_classes(enz)
+    unit = "ACGTTGCATGCAAGCT"
+    fill = (unit * (case["fill"] // len(unit) + 1))[:case["fill"]]
+    mw = case["module"]
+    if gen.circ_count(mw + fill, enz.site) != 1 or gen.circ_count(mw + fill, gen.rc(enz.site)) != 1:
+        return
+    seen = []
+    for spelt in (mw.upper(), mw.lower(), mw[:3].lower() + mw[3:].upper()):
+        wd = spelt + fill
+        wd = wd[case["rot"]:] + wd[:case["rot"]]
+        try:
+            seen.append(bool(M(impl.CircularRecord(impl.Seq(wd), id="bac")).is_valid()))
+        except Exception as e:  # noqa
+            seen.append("exc:" + type(e).__name__)
+    if seen != [True, True, True]:
+        ctx.fail("a {} module in a {} bp plasmid, spelt upper / lower / mixed: is_valid() answers {}".format(
+            case["enz"], len(mw) + len(fill), seen), case)
+    ctx.note("module-in-a-140kb-plasmid")
+    ctx.case({"enz": case["enz"], "fill": case["fill"], "long": True}, nontrivial=True)
+
+
 def run(ctx):
     rng = ctx.rng
+    for _ in range(1 if ctx.tier == "quick" else 3):
+        enz = rng.choice([e for e in boot.supported_enzymes() if abs(e.ovhg) >= 3 and len(e.site) >= 6])
+        try:
+            mw, _d = gen.gen_module(rng, enz, gen.ovh(rng, enz), gen.ovh(rng, enz), blen=6)
+        except RuntimeError:
+            continue
+        ctx.guard(check_long, {"enz": str(enz), "module": mw, "fill": 140000 + rng.randrange(16), "rot": rng.choice([0, 2])})
     for enz in asm.pick_enzymes(rng, ctx.budget(150, 5000)):
         kind = rng.choice("MV")
         if kind == "M":
@@ -142,6 +174,8 @@ def run(ctx):
 
 
 def check_case(ctx, case):
+    if "fill" in case and "module" in case:
+        return ctx.guard(check_long, case)
     if "vector" in case:
         ctx.guard(check_assembly, case)
     else:
